@@ -22,6 +22,8 @@ var c01Lines = []string{
 	`{"x":5,"y":"a"}`, `{"x":"7","y":"b","d":"1s"}`, `{"x":"abc"}`, `{"y":"a"}`, `{"x":5.5,"sz":"1KB","ip":"10.0.0.1"}`, `{"x":6,"y":"ab","ip":"10.0.0.77"}`,
 	"\x1b[31ma\x1b[0m", `{"_entry":"ab","y":"a"}`, `{"_entry":"A","y":"b"}`, `{"_entry":"x=5 y=a","b":"\u0061"}`,
 	"from 10.0.0.1 ok", "10.0.0.1 and 10.0.0.9", "edge 10.0.0.5", "edge 10.0.0.255 10.0.1.0", `ip=10.0.0.5 x=6`, `ip=10.0.0.255`, "peer 192.168.1.7", "v6 ::1 end", "no ip here", "10.0.0.9",
+	// values that parse as numbers but do not order: every ordered comparison with NaN is false, != is true
+	`x=NaN y=a`, `x=+Inf y=b`, `{"x":"NaN","y":"b"}`,
 }
 
 // c01Records: every line once, unique timestamps, stream labels cycling through app in {x,y} x env in {p,absent}.
